@@ -381,6 +381,52 @@ def F31():
         return (f"history [refine(tol=1e-2, p); refine(tol=1e-12, p)] with one dict p: the second result differs bit-wise depending on "
                 f"whether the first analysis ran with 1 or 2 processes (p afterwards: serial {pa}, parallel {pb})")
 
+def F32():
+    """refine_droplets overwrites the caller's DiffuseDroplet candidates when it runs serially (refine_droplet fitted them in
+    place and returned the same objects) but not when it runs with worker processes (pickled copies): a later analysis
+    that uses the same emulsion as candidates returns different droplets depending on how the EARLIER one was scheduled"""
+    import warnings
+    from pde import UnitGrid
+    from droplets import DiffuseDroplet, Emulsion
+    from droplets.image_analysis import refine_droplets
+    g = UnitGrid([16, 16])
+    img = DiffuseDroplet([8, 8], 4, 1.0).get_phase_field(g)
+    img2 = DiffuseDroplet([8.5, 7.5], 4.5, 1.5).get_phase_field(g)
+
+    def history(n):
+        em = Emulsion([DiffuseDroplet([8.3, 7.8], 4.3, 1.0), DiffuseDroplet([7.6, 8.2], 3.8, 1.2)])
+        before = [d.data.tobytes() for d in em]
+        with warnings.catch_warnings():
+            warnings.simplefilter("ignore")
+            refine_droplets(img, em, num_processes=n, tolerance=1e-3)
+            after = [d.data.tobytes() for d in em]
+            second = [d.data.tobytes() for d in refine_droplets(img2, em, num_processes=1, least_squares_params={"max_nfev": 3})]
+        return before == after, second
+    (unch1, sec1), (unch2, sec2) = history(1), history(2)
+    if unch1 != unch2 or sec1 != sec2:
+        return (f"history [refine_droplets(img, em, num_processes=n); refine_droplets(img2, em)]: candidates of the caller unchanged by "
+                f"the first analysis: n=1 {unch1}, n=2 {unch2}; second analysis bit-identical for n=1 and n=2: {sec1 == sec2}")
+
+
+def F33():
+    """integer images: automatic levels are computed in the image's integer type; `vmin - vrng` / `3 * vrng` wrap around"""
+    import warnings
+    import numpy as np
+    from pde import UnitGrid, ScalarField
+    from droplets import DiffuseDroplet
+    from droplets.image_analysis import locate_droplets
+    g = UnitGrid([16, 16])
+    data = np.rint(200 * DiffuseDroplet([8, 8], 4, 1.0).get_phase_field(g).data).astype(np.uint8)
+    try:
+        with warnings.catch_warnings():
+            warnings.simplefilter("ignore")
+            em = locate_droplets(ScalarField(g, data, dtype=np.uint8), threshold="extrema", refine=True,
+                                 refine_args={"adjust_values": True, "vmin": None, "vmax": None})
+    except Exception as e:  # noqa
+        return f"locate_droplets(uint8 image, refine with fitted levels) raised {type(e).__name__}: {e}"
+    if len(em) != 1 or not (np.all(np.isfinite(em[0].position)) and np.isfinite(em[0].radius)):
+        return f"uint8 image: {len(em)} droplets / non-finite parameters"
+
 
 ALL = {k: v for k, v in globals().items() if k[0] == "F" and callable(v)}
 
